@@ -86,12 +86,13 @@ def _prepare(task, out, hooks=False, mode="module"):
     return th, sig, meta
 
 
-def _run(meta, hists, out, timeout=180):
+def _run(meta, hists, out, timeout=75):
     status, hs, raw, err = driver.run_script(meta, hists, timeout=timeout)
     script = driver.script_text(hists)
     attach_tokens(hs, script)
     if status != "ok":
         _inc(out, "driver-" + status.split(":")[0])
+        out.setdefault("notes", []).append("driver %s on %s" % (status, meta.get("name", "?") + ":" + os.path.basename(meta["dir"])))
     return status, hs, script
 
 
@@ -382,7 +383,7 @@ def c04_task(task):
                 ops2.append(["sweep"])
         # obs 4: private dump + point-query sweep at every condition evaluation
         hists.append(("h%d" % i, 4 if i % 3 == 0 else 3, ops2))
-    status, hs, script = _run(meta, hists, out, timeout=240)
+    status, hs, script = _run(meta, hists, out, timeout=90)
     for h in hs:
         stop = False
         for ev in h["events"]:
@@ -878,7 +879,7 @@ def c07_task(task):
             plan[t2] = (tag, "split")
     if not h2:
         return out
-    status, hs2, script2 = _run(meta, h2, out, timeout=240)
+    status, hs2, script2 = _run(meta, h2, out, timeout=90)
     for h in hs2:
         tag, kind = plan[h["tag"]]
         create, facts, init, final, tlabs = twins[tag]
